@@ -71,7 +71,8 @@ func (f *Frame) makeMap(t types.Type) Val {
 	f.heapSet(mi.dom, mi.domS, app("store", f.heapGet(mi.dom, mi.domS), ref, "((as const "+arrSort(mi.kSort, "Bool")+") false)"))
 	f.heapSet(mi.ln, mi.lnS, app("store", f.heapGet(mi.ln, mi.lnS), ref, "0"))
 	f.heapGet(mi.val, mi.valS)
-	f.chargeBytes("48")
+	// the header of a small map lives on the stack when the map does not escape and is a constant per constructor otherwise:
+	// not charged; every new key is (see mapUpdate)
 	return S{ref, t}
 }
 
@@ -92,6 +93,7 @@ func (f *Frame) mapUpdate(x *ssa.MapUpdate) {
 	val := f.heapGet(mi.val, mi.valS)
 	ln := f.heapGet(mi.ln, mi.lnS)
 	had := app("select", app("select", dom, m), k)
+	f.chargeBytes(ite(had, "0", "64"))
 	f.heapSet(mi.ln, mi.lnS, app("store", ln, m, app("+", app("select", ln, m), ite(had, "0", "1"))))
 	f.heapSet(mi.dom, mi.domS, app("store", dom, m, app("store", app("select", dom, m), k, "true")))
 	f.heapSet(mi.val, mi.valS, app("store", val, m, app("store", app("select", val, m), k, vt)))
@@ -227,5 +229,8 @@ func (s *Session) mapAxioms(domKey, lenKey, kSort string) {
 	s.curBlk = nil
 	s.fact(fmt.Sprintf("(forall ((r Int) (k %s)) (! (=> (select (select %s r) k) (> (select %s r) 0)) :pattern ((select (select %s r) k))))", kSort, dom, ln, dom))
 	s.fact(fmt.Sprintf("(forall ((r Int)) (! (>= (select %s r) 0) :pattern ((select %s r))))", ln, ln))
+	// the nil map is empty
+	s.fact(fmt.Sprintf("(= (select %s 0) 0)", ln))
+	s.fact(fmt.Sprintf("(forall ((k %s)) (! (not (select (select %s 0) k)) :pattern ((select (select %s 0) k))))", kSort, dom, dom))
 	s.curBlk = saved
 }
